@@ -2178,9 +2178,11 @@ fn generate_expression(
             context.get_variable_name(*v)?,
         )),
         ir::Expression::MemberVariable(id, member_index) => {
-            let member_def =
-                &context.module.struct_registry[id.0 as usize].members[*member_index as usize];
-            ast::Expression::Identifier(ast::ScopedIdentifier::trivial(&member_def.name))
+            let member_name =
+                context
+                    .name_map
+                    .get_struct_member_name(context.module, *id, *member_index);
+            ast::Expression::Identifier(ast::ScopedIdentifier::trivial(member_name))
         }
         ir::Expression::Global(v) => {
             let def = &context.module.global_registry[v.0 as usize];
@@ -2497,11 +2499,13 @@ fn generate_expression(
             ast::Expression::SizeOf(Box::new(ast::ExpressionOrType::Type(ty)))
         }
         ir::Expression::StructMember(expr, id, member_index) => {
-            let member_def =
-                &context.module.struct_registry[id.0 as usize].members[*member_index as usize];
             let object = generate_expression(expr, context)?;
             let object = Box::new(Located::none(object));
-            ast::Expression::Member(object, ast::ScopedIdentifier::trivial(&member_def.name))
+            let member_name =
+                context
+                    .name_map
+                    .get_struct_member_name(context.module, *id, *member_index);
+            ast::Expression::Member(object, ast::ScopedIdentifier::trivial(member_name))
         }
         ir::Expression::ObjectMember(expr, name) => {
             let object = generate_expression(expr, context)?;
@@ -4303,13 +4307,17 @@ fn generate_struct(
 ) -> Result<ast::StructDefinition, GenerateError> {
     let mut members = Vec::new();
 
-    for member in &decl.members {
+    for (member_index, member) in decl.members.iter().enumerate() {
+        let member_name = context
+            .name_map
+            .get_struct_member_name(context.module, decl.id, member_index as u32)
+            .to_string();
         if member.precise {
             return Err(GenerateError::UnsupportedPrecise);
         };
 
         let (ty, declarator) =
-            generate_type_and_declarator(member.type_id, &member.name, true, context)?;
+            generate_type_and_declarator(member.type_id, &member_name, true, context)?;
 
         let semantic = generate_semantic_annotation(&member.semantic)?;
 
@@ -4534,14 +4542,14 @@ impl<'m> GenerateContext<'m> {
 
     /// Get the name of an enum value
     fn get_enum_value_name(&self, id: ir::EnumValueId) -> Result<&str, GenerateError> {
-        Ok(&self.module.enum_registry.get_enum_value(id).name)
+        Ok(self.name_map.get_enum_value_name(self.module, id))
     }
 
     /// Get the full name of an enum value
     fn get_enum_value_name_full(&self, id: ir::EnumValueId) -> Result<ScopedName, GenerateError> {
         let value = self.module.enum_registry.get_enum_value(id);
         let mut name = self.get_enum_name_full(value.enum_id).unwrap();
-        name.0.push(value.name.node.clone());
+        name.0.push(self.get_enum_value_name(id)?.to_string());
         Ok(name)
     }
 
